@@ -555,7 +555,7 @@ def gen_request(r, scratch, idx, kind=None):
         lines.append('%s(a, b) --> (if a is null then b else a ++ "%s" ++ b);' % (nm, sep))
         lines.append('@BareAggregation(Bare%s, semigroup: %s);' % (nm, nm))
         lines.append('Agg%s(x) = a :- a = Bare%s(x), a ~ %s();' % (nm, nm, nm))
-        cols.append('Agg%s{ c :- c in [ToString(i), "%s"] }' % (nm, 'abc'[i]))
+        cols.append('Agg%s{ c :- c in [ToString(i), "%s"] }' % (nm, 'abcd'[i]))
     lines.append('Test(i, F(i), H(i, 2)%s) :- i in Range(3);' % ''.join(', ' + c for c in cols))
     lines.append('Other(H(F(i), i)) :- i in Range(2);')
     # an aggregating predicate read by others (compiled as a WITH table), beside the functions,
